@@ -10,6 +10,8 @@ CONSTANTS
     BugDrainWrong = FALSE
     BugLowWaterStrict = FALSE
     BugNoRereg = FALSE
+    BugCloseLeaves = FALSE
 SPECIFICATION Spec
 INVARIANTS TypeOK NoLoss WireOK ChanFifo Boundary Bound Throttled RegSync DropsOnlySealed
+PROPERTIES SealTakesAll
 CHECK_DEADLOCK FALSE
